@@ -328,8 +328,51 @@ def run_case(cfg, univ, lines):
     return impl, recs
 
 
+def proxy_back_pass(ctx):
+    """a unique many-valued reference whose elements point back through a single-valued opposite — one of them through a
+    resolved *proxy* of the owner (a followed cross-resource reference): adding an element the collection already holds
+    changes nothing, as for any set-like collection"""
+    from pyecore import ecore as E
+    for k in range(12 if ctx.quick() else 120):
+        rng = common.sub_rng(ctx.seed, 'C04', 'proxy-back', k)
+        A, B = E.EClass('A'), E.EClass('B')
+        refs = E.EReference('refs', B, upper=-1, ordered=k % 2 == 0)
+        A.eStructuralFeatures.append(refs)
+        B.eStructuralFeatures.append(E.EReference('back', A, eOpposite=refs))
+        a = A()
+        elems = [B() for _ in range(rng.randint(2, 4))]
+        for i, e in enumerate(elems):
+            if i % 2 == 0:
+                e.back = E.EProxy(wrapped=a)
+            else:
+                a.refs.append(e)
+        before = [elems.index(v) for v in a.refs]
+        again = rng.choice(elems)
+        how = rng.choice(['append', 'add', 'insert', 'extend'])
+        ctx.evaluations += 1
+        ctx.nontriv(('proxy-back', k))
+        try:
+            if how == 'append':
+                a.refs.append(again)
+            elif how == 'add':
+                a.refs.add(again)
+            elif how == 'insert':
+                a.refs.insert(0, again)
+            else:
+                a.refs.extend([again])
+        except Exception as e:
+            how += f' raised {type(e).__name__}'
+        after = [elems.index(v) for v in a.refs]
+        if after != before:
+            ctx.violate({'clause': 'no-dup', 'op': 'add', 'unique': True, 'ordered': bool(refs.ordered), 'proxy_back': True},
+                        f'a unique collection {before} was given element {elems.index(again)} again ({how}; the elements point back, '
+                        f'every second one through a proxy of the owner): it is now {after}', {'proxy_back': k})
+            return
+
+
 def run(ctx):
     common.use_repo()
+    proxy_back_pass(ctx)
     rng = common.sub_rng(ctx.seed, 'C04')
     cases = build_cases(ctx, rng)
     ctx.rule = ('exhaustive: every duplicate-free state (unique) / every list (non-unique) over a universe of '
